@@ -50,11 +50,16 @@ def cases(draw):
             if delimiter != "," and (fmt["decimal"] == delimiter or fmt["thousands"] == delimiter):
                 delimiter = "|"
             fmt["item_delimiter"], fmt["quote_character"], fmt["escape_character"] = delimiter, quote, escape
-        spec["fields"].append({"name": "free_text9", "empty": True, "length": "", "length_items": None, "type": "Text",
+        # as the last or as the first field of the row
+        spec["fields"].insert(draw(st.sampled_from([0, len(spec["fields"])])), {"name": "free_text9", "empty": True, "length": "", "length_items": None, "type": "Text",
                                "rule": "", "model": {}, "reject": [],
                                "accept": ["", "plain", "C:\\temp", "it's", 'say "hi"', "a;b", "a|b", "a,b", "\\", "'",
-                                          '"', "\\\\", "''", '""', "a\\'b", 'x\\"']})
+                                          '"', "\\\\", "''", '""', "a\\'b", 'x\\"', "\ufeffid", "\ufeff", "#", "sep=;"]})
     rows = draw(gen_tables.tables(spec, max_rows=8, ragged=True))
+    if rows and rows[0] and spec["fields"][0]["name"] == "free_text9" and draw(st.integers(0, 2)) == 0:
+        # a first cell that means something to some consumer of delimited files (byte order mark, Excel's separator
+        # hint, the SYLK magic, a comment): for the writer and the reader it is text
+        rows[0][0] = draw(st.sampled_from(["\ufeffid", "\ufeff", "sep=;", "ID", "#", "\ufeff\ufeff"]))
     if fmt["format"] == "fixed":
         # the caller need not pad: values come without their trailing blanks, with some of them or with all of them
         # (whatever the spelling, it is the same value once written)
@@ -79,7 +84,8 @@ def cases(draw):
     if target == "path":
         # the writer opens the file with the declared encoding: a row it cannot encode is a row it cannot write
         fmt["encoding"] = draw(st.sampled_from(["utf-8", "utf-8", "ascii", "cp1252", "latin-1", "utf-16", "cp850"]))
-    return {"spec": spec, "rows": rows, "target": target, "rows_as": draw(st.sampled_from(["list", "list", "tuple"]))}
+    return {"spec": spec, "rows": rows, "target": target, "rows_as": draw(st.sampled_from(["list", "list", "tuple"])),
+            "calls": draw(st.sampled_from(["rows", "rows", "bulk"]))}
 
 
 def _render(spec, accepted):
@@ -169,6 +175,47 @@ def _check_with_target(sub, case, cid, target):
     accepted = []
     verdicts = []
     tainted = False
+    # how the rows are handed over: one write_row() call each, or ("bulk") every run of rows that are to be accepted -
+    # header rows and data rows alike - in one write_rows() call
+    bulk = case.get("calls") == "bulk"
+    pending = []
+
+    def content_ok(row):
+        content = target.getvalue()
+        if content is None:
+            return True
+        if fixed:
+            wanted = _render(spec, accepted)
+            if content != wanted:
+                sub.fail("C14|stream-content|%s|%s" % (label, fmt.get("line_delimiter")), case,
+                         "after writing %r the stream holds %r, expected %r" % (row, content, wanted))
+                return False
+        else:
+            try:
+                parsed = _parse_delimited(content, fmt)
+            except csv.Error as error:
+                sub.fail("C14|stream-unparsable|%s" % label, case, "stream %r: %s" % (content, error))
+                return False
+            if parsed != accepted:
+                sub.fail("C14|stream-content|%s" % label, case,
+                         "after writing %r the stream parses to %r, expected %r" % (row, parsed, accepted))
+                return False
+        return True
+
+    def flush():
+        if not pending:
+            return True
+        handed_over = list(pending)
+        del pending[:]
+        try:
+            writer.write_rows(handed_over if len(handed_over) % 2 else iter(handed_over))
+        except Exception as error:
+            sub.fail("C14|write-rows|%s|%s" % (label, type(error).__name__), case,
+                     "write_rows(%r), all of them to be accepted, raised %s: %s" % (
+                         handed_over, type(error).__name__, error))
+            return False
+        return content_ok(handed_over)
+
     for row in rows:
         written = len(accepted)
         before = target.getvalue()
@@ -203,6 +250,16 @@ def _check_with_target(sub, case, cid, target):
         handed = row_objects.setdefault(tuple(row), list(row))
         if case.get("rows_as") == "tuple":
             handed = tuple(row)  # as rows come from a database cursor: a sequence all the same
+        if bulk:
+            if expectation[0] in ("header", "accept"):
+                pending.append(handed)
+                accepted.append(list(row))
+                verdicts.append(expectation[0])
+                sub.evaluations += 1
+                continue
+            if not flush():
+                return
+            before = target.getvalue()
         try:
             writer.write_row(handed)
             outcome = None
@@ -236,25 +293,10 @@ def _check_with_target(sub, case, cid, target):
                          "rejected row %r changed the stream from %r to %r" % (row, before, target.getvalue()))
                 return
         # stream content after every step
-        content = target.getvalue()
-        if content is None:
-            continue
-        if fixed:
-            wanted = _render(spec, accepted)
-            if content != wanted:
-                sub.fail("C14|stream-content|%s|%s" % (label, fmt.get("line_delimiter")), case,
-                         "after writing %r the stream holds %r, expected %r" % (row, content, wanted))
-                return
-        else:
-            try:
-                parsed = _parse_delimited(content, fmt)
-            except csv.Error as error:
-                sub.fail("C14|stream-unparsable|%s" % label, case, "stream %r: %s" % (content, error))
-                return
-            if parsed != accepted:
-                sub.fail("C14|stream-content|%s" % label, case,
-                         "after writing %r the stream parses to %r, expected %r" % (row, parsed, accepted))
-                return
+        if not content_ok(row):
+            return
+    if not flush():
+        return
     # close
     end = "neutral" if tainted else state.at_end()
     close_error = None
@@ -330,7 +372,7 @@ def _check_with_target(sub, case, cid, target):
         elif v == "accept" and seen_reject:
             nontrivial = True
     classes = ["format:" + label, "header:%d" % header, "target:" + case.get("target", "stream"),
-               "rows-as:" + case.get("rows_as", "list")] + [
+               "rows-as:" + case.get("rows_as", "list"), "calls:" + case.get("calls", "rows")] + [
         "step:" + v for v in verdicts]
     if fixed:
         classes.append("line-delimiter:%s" % fmt.get("line_delimiter"))
